@@ -9,6 +9,11 @@ import OdlModel.Lemmas.Deriv
 import Mathlib.Analysis.SpecialFunctions.Sqrt
 import Mathlib.Analysis.Calculus.Deriv.Mul
 import Mathlib.Analysis.Calculus.Deriv.Add
+import Mathlib.Analysis.Calculus.Deriv.Abs
+import Mathlib.Analysis.Calculus.Deriv.Comp
+import Mathlib.Analysis.Calculus.FDeriv.Pi
+import Mathlib.Analysis.Calculus.FDeriv.Mul
+import Mathlib.Analysis.Calculus.FDeriv.Add
 import Mathlib.Tactic.Ring
 import Mathlib.Tactic.FieldSimp
 import Mathlib.Tactic.Linarith
@@ -256,5 +261,147 @@ theorem l2norm_deriv_ne_none [DecidableEq ℝ] (n : Nat) (x : Vec ℝ) :
   · have e : (Leaf.l2norm n : Leaf ℝ).deriv x
         = some (.inner n fun k => (1 / (Leaf.l2norm n : Leaf ℝ).run x 0) * x k) := if_neg hb
     rw [e]; simp
+
+/-! ### Fréchet form on `Fin N → ℝ` -/
+
+/-- A vector of `rn(N)` as a model vector (entries beyond `N` are `0`). -/
+def ext {N : Nat} (y : Fin N → ℝ) : Vec ℝ := fun j => if h : j < N then y ⟨j, h⟩ else 0
+
+theorem ext_line {N : Nat} (x d : Fin N → ℝ) (s : ℝ) :
+    ext (x + s • d) = fun m => ext x m + s * ext d m := by
+  funext m
+  by_cases h : m < N <;> simp [ext, h]
+
+theorem differentiableAt_ext {N : Nat} (j : Nat) (x : Fin N → ℝ) :
+    DifferentiableAt ℝ (fun y : Fin N → ℝ => ext y j) x := by
+  by_cases h : j < N
+  · simp only [ext, h, dite_true]
+    exact differentiableAt_apply (𝕜 := ℝ) (⟨j, h⟩ : Fin N) x
+  · simp only [ext, h, dite_false]
+    exact differentiableAt_const _
+
+theorem differentiableAt_sumTo {E : Type} [NormedAddCommGroup E] [NormedSpace ℝ E] (m : Nat)
+    (f : Nat → E → ℝ) (x : E) (h : ∀ i, DifferentiableAt ℝ (f i) x) :
+    DifferentiableAt ℝ (fun y => sumTo m (fun i => f i y)) x := by
+  induction m with
+  | zero => simp [sumTo]
+  | succ m ih => exact ih.add (h m)
+
+theorem differentiableAt_ssq {N : Nat} (l : Leaf ℝ) (k : Nat) (x : Fin N → ℝ) :
+    DifferentiableAt ℝ (fun y : Fin N → ℝ => l.ssq (ext y) k) x := by
+  cases l with
+  | norm n =>
+    exact differentiableAt_sumTo n _ x (fun i => (differentiableAt_ext i x).mul (differentiableAt_ext i x))
+  | l2norm n =>
+    exact differentiableAt_sumTo n _ x (fun i => (differentiableAt_ext i x).mul (differentiableAt_ext i x))
+  | dist n y =>
+    exact differentiableAt_sumTo n _ x (fun i =>
+      ((differentiableAt_const (y i)).sub (differentiableAt_ext i x)).mul
+        ((differentiableAt_const (y i)).sub (differentiableAt_ext i x)))
+  | cmod n =>
+    exact ((differentiableAt_ext k x).mul (differentiableAt_ext k x)).add
+      ((differentiableAt_ext (n + k) x).mul (differentiableAt_ext (n + k) x))
+  | pwnorm m n =>
+    exact differentiableAt_sumTo m _ x (fun i =>
+      (differentiableAt_ext (i * n + k) x).mul (differentiableAt_ext (i * n + k) x))
+
+/-- Fréchet form. -/
+theorem leaf_hasFDerivAt [DecidableEq ℝ] {N : Nat} (l : Leaf ℝ) (x : Fin N → ℝ) (k : Nat)
+    (hk : k < l.ran) (hs : l.ssq (ext x) k ≠ 0) :
+    ∃ j, l.deriv (ext x) = some j ∧ ∃ L : (Fin N → ℝ) →L[ℝ] ℝ,
+      HasFDerivAt (fun y : Fin N → ℝ => l.run (ext y) k) L x ∧ ∀ d, L d = j.run (ext d) k := by
+  have hdiff : DifferentiableAt ℝ (fun y : Fin N → ℝ => l.run (ext y) k) x := by
+    have h1 := differentiableAt_ssq l k x
+    exact h1.sqrt hs
+  obtain ⟨j, hj, _⟩ := leaf_hasDerivAt_line l (ext x) (ext x) k hk hs
+  refine ⟨j, hj, fderiv ℝ (fun y : Fin N → ℝ => l.run (ext y) k) x, hdiff.hasFDerivAt, fun d => ?_⟩
+  obtain ⟨j', hj', hline⟩ := leaf_hasDerivAt_line l (ext x) (ext d) k hk hs
+  have ej : j' = j := Option.some.inj (hj'.symm.trans hj)
+  subst ej
+  -- the line `s ↦ x + s • d`
+  have hl : HasDerivAt (fun s : ℝ => x + s • d) d 0 := by
+    simpa using ((hasDerivAt_id (0 : ℝ)).smul_const d).const_add x
+  have hc := (hdiff.hasFDerivAt).comp_hasDerivAt_of_eq (0 : ℝ) hl (by simp)
+  have e1 : ((fun y : Fin N → ℝ => l.run (ext y) k) ∘ fun s : ℝ => x + s • d)
+      = fun s : ℝ => l.run (fun m => ext x m + s * ext d m) k := by
+    funext s; simp only [Function.comp, ext_line]
+  rw [e1] at hc
+  exact hc.unique hline
+
+
+/-! ### the singular points -/
+
+theorem sqrt_sumsq_line_singular (m : Nat) (g e : Nat → ℝ) (hg : sumTo m (fun i => g i * g i) = 0)
+    (he : sumTo m (fun i => e i * e i) ≠ 0) :
+    ¬ DifferentiableAt ℝ
+      (fun s : ℝ => Real.sqrt (sumTo m (fun i => (g i + s * e i) * (g i + s * e i)))) 0 := by
+  have hg0 := (sumTo_sq_eq_zero m g).mp hg
+  have hc : Real.sqrt (sumTo m (fun i => e i * e i)) ≠ 0 :=
+    sqrt_ne_zero_of_ne (sumTo_sq_nonneg m e) he
+  have F : (fun s : ℝ => Real.sqrt (sumTo m (fun i => (g i + s * e i) * (g i + s * e i))))
+      = fun s : ℝ => |s| * Real.sqrt (sumTo m (fun i => e i * e i)) := by
+    funext s
+    have e1 : sumTo m (fun i => (g i + s * e i) * (g i + s * e i))
+        = (s * s) * sumTo m (fun i => e i * e i) := by
+      rw [← sumTo_mul_left]
+      apply sumTo_congr_lt; intro i hi; rw [hg0 i hi]; ring
+    rw [e1, Real.sqrt_mul (mul_self_nonneg s), Real.sqrt_mul_self_eq_abs]
+  rw [F]
+  intro h
+  have h2 : DifferentiableAt ℝ
+      (fun s : ℝ => |s| * Real.sqrt (sumTo m (fun i => e i * e i))
+        * (Real.sqrt (sumTo m (fun i => e i * e i)))⁻¹) 0 := h.mul_const _
+  have e2 : (fun s : ℝ => |s| * Real.sqrt (sumTo m (fun i => e i * e i))
+        * (Real.sqrt (sumTo m (fun i => e i * e i)))⁻¹) = fun s : ℝ => |s| := by
+    funext s; rw [mul_assoc, mul_inv_cancel₀ hc, mul_one]
+  rw [e2] at h2
+  exact not_differentiableAt_abs_zero h2
+
+/-- The leaf with its reference vector removed: the directions along which `op` has a kink at a
+singular point are measured by the sum of squares of the DIRECTION. -/
+def Leaf.homog : Leaf ℝ → Leaf ℝ
+  | .dist n _ => .norm n
+  | l => l
+
+/-- At a point of the non-differentiable set (sum of squares under the root `= 0`) and along every
+direction that moves the entry, `s ↦ op(x + s d)_k` is NOT differentiable at `0`. -/
+theorem leaf_not_differentiableAt_singular (l : Leaf ℝ) (x d : Vec ℝ) (k : Nat)
+    (hs : l.ssq x k = 0) (hd : l.homog.ssq d k ≠ 0) :
+    ¬ DifferentiableAt ℝ (fun s : ℝ => l.run (fun m => x m + s * d m) k) 0 := by
+  cases l with
+  | norm n => exact sqrt_sumsq_line_singular n x d hs hd
+  | l2norm n => exact sqrt_sumsq_line_singular n x d hs hd
+  | dist n y =>
+    have hd' : sumTo n (fun j => (- d j) * (- d j)) ≠ 0 := by
+      have : sumTo n (fun j => (- d j) * (- d j)) = sumTo n (fun j => d j * d j) := by
+        apply sumTo_congr_lt; intro i _; ring
+      rw [this]; exact hd
+    have h := sqrt_sumsq_line_singular n (fun j => y j - x j) (fun j => - d j) hs hd'
+    have F : (fun s : ℝ => (Leaf.dist n y).run (fun m => x m + s * d m) k)
+        = fun s : ℝ => Real.sqrt (sumTo n (fun j =>
+            ((y j - x j) + s * (- d j)) * ((y j - x j) + s * (- d j)))) := by
+      funext s
+      simp only [Leaf.run, Leaf.ssq, hasSqrt_real]
+      congr 1
+      apply sumTo_congr_lt; intro i _; ring
+    rw [F]; exact h
+  | cmod n =>
+    let g : Nat → ℝ := fun i => if i = 0 then x k else x (n + k)
+    let e : Nat → ℝ := fun i => if i = 0 then d k else d (n + k)
+    have hs2 : sumTo 2 (fun i => g i * g i) = 0 := by
+      have : x k * x k + x (n + k) * x (n + k) = 0 := hs
+      simpa [sumTo, g] using this
+    have hd2 : sumTo 2 (fun i => e i * e i) ≠ 0 := by
+      have : d k * d k + d (n + k) * d (n + k) ≠ 0 := hd
+      simpa [sumTo, e] using this
+    have h := sqrt_sumsq_line_singular 2 g e hs2 hd2
+    have F : (fun s : ℝ => (Leaf.cmod n : Leaf ℝ).run (fun m => x m + s * d m) k)
+        = fun s : ℝ => Real.sqrt (sumTo 2 (fun i => (g i + s * e i) * (g i + s * e i))) := by
+      funext s
+      simp [Leaf.run, Leaf.ssq, hasSqrt_real, sumTo, g, e]
+    rw [F]; exact h
+  | pwnorm m n =>
+    exact sqrt_sumsq_line_singular m (fun i => x (i * n + k)) (fun i => d (i * n + k)) hs hd
+
 
 end OdlModel.Deriv
